@@ -124,3 +124,43 @@ Example C06_nonvacuous :
   from_str dev [43] = Val (PErr PInvalid) /\
   from_str dev [] = Val (PErr PEmpty).
 Proof. vm_compute. repeat split. Qed.
+
+(* ---- the parts of the parser that lie inside the translated subset, from /repo's current source: the two SWAR helpers of
+   fpdec-core/src/parser.rs (gen/GenCore.v) and the exponent folding of impl FromStr for Decimal (gen/GenDec.v; the byte
+   loop str_to_dec enters as a parameter that returns what the model's str_to_dec returns) ---- *)
+From FP Require Import GenCore GenDec GenTieSwar GenTieDecStr.
+
+Theorem C06_source_swar_digit_test :
+  forall pf l, length l = 8%nat -> Forall byte_ok l ->
+    g_chunk_contains_8_digits pf (lanes 8 l) = Val (forallb isdig l).
+Proof. exact src_swar_digit_test. Qed.
+Check C06_source_swar_digit_test :
+  forall pf l, length l = 8%nat -> Forall byte_ok l ->
+    g_chunk_contains_8_digits pf (lanes 8 l) = Val (forallb isdig l).
+Print Assumptions C06_source_swar_digit_test.
+
+Theorem C06_source_swar_convert :
+  forall pf d0 d1 d2 d3 d4 d5 d6 d7,
+    0 <= d0 <= 9 -> 0 <= d1 <= 9 -> 0 <= d2 <= 9 -> 0 <= d3 <= 9 ->
+    0 <= d4 <= 9 -> 0 <= d5 <= 9 -> 0 <= d6 <= 9 -> 0 <= d7 <= 9 ->
+    g_chunk_to_u64 pf (lanes 8 [48 + d0; 48 + d1; 48 + d2; 48 + d3; 48 + d4; 48 + d5; 48 + d6; 48 + d7])
+    = Val (d0 * 10 ^ 7 + d1 * 10 ^ 6 + d2 * 10 ^ 5 + d3 * 10 ^ 4 + d4 * 10 ^ 3 + d5 * 10 ^ 2 + d6 * 10 + d7).
+Proof. exact src_swar_convert. Qed.
+Check C06_source_swar_convert :
+  forall pf d0 d1 d2 d3 d4 d5 d6 d7,
+    0 <= d0 <= 9 -> 0 <= d1 <= 9 -> 0 <= d2 <= 9 -> 0 <= d3 <= 9 ->
+    0 <= d4 <= 9 -> 0 <= d5 <= 9 -> 0 <= d6 <= 9 -> 0 <= d7 <= 9 ->
+    g_chunk_to_u64 pf (lanes 8 [48 + d0; 48 + d1; 48 + d2; 48 + d3; 48 + d4; 48 + d5; 48 + d6; 48 + d7])
+    = Val (d0 * 10 ^ 7 + d1 * 10 ^ 6 + d2 * 10 ^ 5 + d3 * 10 ^ 4 + d4 * 10 ^ 3 + d5 * 10 ^ 2 + d6 * 10 + d7).
+Print Assumptions C06_source_swar_convert.
+
+Theorem C06_source_from_str_folding :
+  forall pf (ext : list Z -> res ((Z * Z) + gperr)) s,
+    ext s = (r <- str_to_dec pf s ;; Val (sum_of_pres r)) ->
+    g_FromStr_from_str pf ext s = (r <- from_str pf s ;; Val (sum_of_pres r)).
+Proof. exact tie_from_str. Qed.
+Check C06_source_from_str_folding :
+  forall pf (ext : list Z -> res ((Z * Z) + gperr)) s,
+    ext s = (r <- str_to_dec pf s ;; Val (sum_of_pres r)) ->
+    g_FromStr_from_str pf ext s = (r <- from_str pf s ;; Val (sum_of_pres r)).
+Print Assumptions C06_source_from_str_folding.
